@@ -10,6 +10,8 @@ import (
 	v2 "mosn.io/mosn/pkg/config/v2"
 	"mosn.io/mosn/pkg/router"
 	"mosn.io/mosn/pkg/upstream/cluster"
+
+	. "vh/vhlib"
 )
 
 // scripted rand.Source: Intn(n) of a rand.Rand over it returns `next` (for next < n <= 2^31-1).
@@ -22,8 +24,6 @@ type wcl struct {
 	Name string `json:"name"`
 	W    uint32 `json:"w"`
 }
-
-func init() { cmds["c06"] = c06 }
 
 // feasibleExact: can cluster c be the answer for draw v under SOME storage order, if selection is
 // exactly "cumulative intervals of length weight" (probability weight/total for each order)?
@@ -144,7 +144,7 @@ func c06(args []string) int {
 				sh.Add(fmt.Sprintf("(%s, %s, %s, %s)", CoqList(coqcs), CoqZ(int64(v)), CoqString("dflt"), CoqString(got)), rep)
 				if sh.Len() >= 400 {
 					sh.Close()
-					sh = run.NewShard(sh.header, sh.typ, sh.eval)
+					sh = run.NewShard(sh.Header, sh.Typ, sh.Eval)
 				}
 			}
 		}
